@@ -118,7 +118,8 @@ def run_instance(inst, tier):
         desc = {"tset": inst["tset"], "N": N, "placement": [[k, list(vs)] for k, vs, _ in pl]}
         # histories of repeated extraction on ONE object
         try:
-            ex = JointExcessJointDegree({TN.NETWORK: net.G, TN.EDGE_NAMES: list(names)})
+            # equal names, but other str objects than the ones stored on the edges
+            ex = JointExcessJointDegree({TN.NETWORK: net.G, TN.EDGE_NAMES: ["".join(list(n)) for n in names]})
         except Exception as e:
             res.violation("C13:constructor", f"{desc}: constructor raised {e!r}", desc)
             continue
